@@ -25,6 +25,10 @@ use std::path::PathBuf;
 
 fn main() {
   let args: Vec<String> = std::env::args().collect();
+  if args.len() == 4 && args[1] == "probe" {
+    util::install_panic_hook();
+    std::process::exit(c07::probe(&args[2], &args[3]));
+  }
   if args.len() < 6 || args[1] != "gen" {
     eprintln!("usage: verif-harness gen <Cxx> <quick|thorough> <seed> <outdir>");
     std::process::exit(2);
